@@ -17,6 +17,18 @@ NAMED = {
 }
 
 
+def _css_names():
+    from PIL import ImageColor
+
+    out = {}
+    for k, v in ImageColor.colormap.items():
+        out[k] = ImageColor.getrgb(v)[:3] if isinstance(v, str) else tuple(v[:3])
+    return out
+
+
+NAMED = dict(_css_names(), **NAMED)
+
+
 def rgba(c):
     """colour string (name, #rgb, #rgba, #rrggbb, #rrggbbaa) -> (r,g,b,a) floats 0..1"""
     c = c.strip()
